@@ -314,9 +314,17 @@ def shards(tier, seed):
     # neg_riem_dist for pool_rdm): structure only; pool_rdm of both modules against the reference pool
     for part in ('A0', 'A1', 'A2', 'fill2', 'fill3', 'fill4', 'cv2', 'cv3', 'cv4', 'pool'):
         out.append({'kind': 'RK', 'part': part})
+    # EV: the noise ceilings stored by the evaluation routines, per observed resample, with rdm groups
+    # that hold several RDMs
+    for routine in EV_ROUTINES:
+        for variant in (0, 1):
+            out.append({'kind': 'EV', 'routine': routine, 'variant': variant})
     return out
 
 
+EV_ROUTINES = ['eval_bootstrap', 'eval_bootstrap_rdm', 'eval_bootstrap_pattern', 'bootstrap_crossval',
+               'eval_dual_bootstrap']
+EV_LABELS = [[12, 12, 11, 11, 10], ['cz', 'ca', 'cz', 'cm', 'ca', 'cm']]    # groups of 2 (+1) RDMs, interleaved
 KF_GROUPS = {2: [4, 5], 3: [5, 6, 7, 8, 9], 4: [9, 10, 11, 12]}     # every remainder 0..k-1
 SEQ_OPS = ['boot_noise_ceiling', 'cv_noise_ceiling', 'eval_fixed', 'crossval']
 A6_MASKS = list(combi.masks(6, 2))     # () + 6 + 15 = 22
@@ -393,8 +401,43 @@ def run_shard(shard, ctx):
         _shard_seq(shard, ctx)
     elif kind == 'RK':
         _shard_rk(shard, ctx)
+    elif kind == 'EV':
+        _shard_ev(shard, ctx)
     else:
         raise ValueError(kind)
+
+
+def _shard_ev(shard, ctx):
+    routine, variant = shard['routine'], shard['variant']
+    thorough = ctx.tier == 'thorough'
+    labels = EV_LABELS[variant]
+    n_cond = 5
+    fill = {'n_rdm': len(labels), 'L': n_cond * (n_cond - 1) // 2, 'key': 0, 'style': [0, 2][variant]}
+    if routine.startswith('eval_bootstrap'):
+        settings = [{'boot_noise_ceil': True}, {'boot_noise_ceil': False}]
+    elif routine == 'bootstrap_crossval':
+        settings = [{'boot_type': bt, 'k_rdm': k} for bt in ('both', 'rdm', 'pattern') for k in (1, 2)]
+    else:
+        settings = [{'k_rdm': 1}, {'k_rdm': 2}]
+    for si, setting in enumerate(settings):
+        for desc in ('grp', 'index'):
+            for mi, m in enumerate(PLAIN + ['spearman']):
+                if desc == 'index' and mi != (si + variant) % 3:
+                    continue        # default descriptor (every RDM its own group): one method per setting
+                case = {'kind': 'ev', 'routine': routine, 'fill': fill, 'n_cond': n_cond, 'labels': labels,
+                        'desc': desc, 'setting': setting, 'method': m}
+                # every draw history with <= 1 non-default answer for one method per setting, the
+                # all-default history (= the data itself as every resample) for the others
+                deep = mi == (si + variant) % 3 and desc == 'grp' and setting.get('boot_noise_ceil', True)
+                if not routine.startswith('eval_bootstrap') and not thorough and si % 2 != variant:
+                    deep = False    # quick: k_rdm 1 under draws with the first labelling, k_rdm 2 with the second
+                bound = (2 if thorough and routine != 'eval_dual_bootstrap' else 1) if deep else 0
+                stats = Stats()
+                for _env, _ in explore(lambda env: _ev_exec(case, env, ctx), bound=bound, max_exec=4000,
+                                       stats=stats):
+                    pass
+                if stats.capped:
+                    ctx.count('cap_hit')
 
 
 POOL_METHODS = {'inference_util': ALL + RANKS + ['euclid', 'neg_riem_dist', 'no-such-measure'],
@@ -582,6 +625,8 @@ def run_case(case, ctx):
         _case_seq(case, ctx)
     elif kind == 'pool':
         _case_pool(case, ctx)
+    elif kind == 'ev':
+        _ev_exec(case, Env(case.get('choices', [])), ctx)
     else:
         raise ValueError(kind)
 
@@ -839,6 +884,171 @@ def _case_seq(case, ctx):
                      '%s(method=%s) after %s(method=%s) on the same RDMs object gives (lower, upper) = %r; on a fresh '
                      'copy of the data %r; reference %r; data=%s' % (op, second, op, first, after, alone, want,
                                                                      full.tolist()))
+
+
+@contextlib.contextmanager
+def _record_evaluate(desc):
+    """observe what the evaluation routines resample and how they split it: recording wrappers around the
+    names bootstrap_sample* and sets_k_fold in the namespace of inference.evaluate (nothing in the tree is
+    edited).  Every record is a snapshot taken at call time."""
+    import rsatoolbox.inference.evaluate as ev
+    log = {'samples': [], 'splits': []}
+
+    def snap(rdms):
+        return {'vectors': np.array(rdms.get_vectors(), dtype=float),
+                'labels': [x.item() if hasattr(x, 'item') else x for x in rdms.rdm_descriptors[desc]],
+                'n_cond': int(rdms.n_cond)}
+
+    def sampler(orig):
+        def wrapped(*a, **k):
+            out = orig(*a, **k)
+            log['samples'].append(dict(snap(out[0]), draws=[np.asarray(o).tolist() for o in out[1:]]))
+            return out
+        return wrapped
+
+    def splitter(orig):
+        def wrapped(*a, **k):
+            out = orig(*a, **k)
+            src = a[0] if a else k['rdms']
+            rec = snap(src)
+            rec['test_labels'] = [[x.item() if hasattr(x, 'item') else x for x in te[0].rdm_descriptors[desc]]
+                                  for te in out[1]]
+            rec['test_n_cond'] = [int(te[0].n_cond) for te in out[1]]
+            log['splits'].append(rec)
+            return out
+        return wrapped
+    names = {'bootstrap_sample': sampler, 'bootstrap_sample_rdm': sampler, 'bootstrap_sample_pattern': sampler,
+             'sets_k_fold': splitter}
+    saved = {n: getattr(ev, n) for n in names}
+    for n, w in names.items():
+        setattr(ev, n, w(saved[n]))
+    try:
+        yield log
+    finally:
+        for n, f in saved.items():
+            setattr(ev, n, f)
+
+
+def _resample_reference(method, rec, test_labels=None):
+    """reference (lower, upper-or-None, why-not) of one observed resample: leave-one-group-out over the
+    resample's own groups, or - with test_labels (one list per fold) - the cross-validated lower bound from
+    the REMAINING groups; entries missing from all RDMs (pairs of two copies of one condition) ignored"""
+    vec, labels = rec['vectors'], rec['labels']
+    missing = [k for k in range(vec.shape[1]) if np.isnan(vec[:, k]).any()]
+    stack = R.delete_entries(vec.tolist(), missing)
+    if len(stack[0]) < 3 or not _defined(method, stack):
+        return None, None, UNDEF
+    if test_labels is None:
+        lo, info = R.lower_bound(method, stack, labels)
+        if lo is None:
+            return None, None, 'lower bound: ' + str(info)
+        sizes = set(len(v) for v in R.groups_of(labels).values())
+        up = R.upper_bound(method, stack, labels) if len(sizes) == 1 else None
+        return lo, up, None
+    folds = []
+    for tl in test_labels:
+        tl = set(tl)
+        test = [i for i, g in enumerate(labels) if g in tl]
+        rest = [i for i, g in enumerate(labels) if g not in tl]
+        if not rest:
+            rest = list(range(len(labels)))       # no cross-validation over RDMs
+        folds.append((rest, test, list(range(rec['n_cond']))))
+    lo, info = R.cv_lower(method, vec.tolist(), rec['n_cond'], folds, missing)
+    if lo is None:
+        return None, None, 'cv lower bound: ' + str(info)
+    return lo, None, None
+
+
+def _ev_exec(case, env, ctx):
+    """one execution of an evaluation routine under one fully specified draw history; every stored noise
+    ceiling is compared with the reference ceiling of the resample it belongs to"""
+    import rsatoolbox.inference as inf
+    routine, method, desc, setting = case['routine'], case['method'], case['desc'], case['setting']
+    labels, n_cond = case['labels'], case['n_cond']
+    full = _data(case, ctx.seed)
+    N = 2
+    sigp = '%s|method=%s,%s' % (routine, method, ','.join('%s=%s' % kv for kv in sorted(setting.items())))
+    with ctx.guard(sigp, case):
+        rdms = _rdms(full, labels, n_cond)
+        model = _fixed_model(rdms, n_cond, ctx.seed)
+        kw = dict(method=method, N=N, rdm_descriptor=desc)
+        if routine == 'eval_bootstrap':
+            kw.update(pattern_descriptor='index', boot_noise_ceil=setting['boot_noise_ceil'])
+        elif routine == 'eval_bootstrap_pattern':
+            kw.update(pattern_descriptor='index', boot_noise_ceil=setting['boot_noise_ceil'])
+        elif routine == 'eval_bootstrap_rdm':
+            kw.update(boot_noise_ceil=setting['boot_noise_ceil'])
+        elif routine == 'bootstrap_crossval':
+            kw.update(k_pattern=1, k_rdm=setting['k_rdm'], n_cv=1, boot_type=setting['boot_type'],
+                      use_correction=False, pattern_descriptor='index')
+        else:
+            kw.update(k_pattern=1, k_rdm=setting['k_rdm'], n_cv=1, use_correction=False, pattern_descriptor='index')
+        with installed(RngEnv(env)), _record_evaluate(desc) as log, \
+                _Unchanged(ctx, '%s|method=%s' % (routine, method), case, data=rdms, models=model):
+            res = getattr(inf, routine)(model, rdms, **kw)
+        nc = np.asarray(res.noise_ceiling, dtype=float)
+        done = dict(case, choices=list(env.choices))
+        ctx.case(done)
+        ctx.outcome(np.round(nc, 9))
+        # ---- which stored value belongs to which observed resample
+        pairs = []      # (stored lower, stored upper, reference record, test labels or None, where)
+        if routine.startswith('eval_bootstrap'):
+            if not setting['boot_noise_ceil']:
+                if nc.shape != (2,):
+                    ctx.fail(sigp + '|noise-ceiling-shape', done, 'shape %r' % (nc.shape,))
+                    return
+                rec = {'vectors': full, 'labels': labels if desc == 'grp' else list(range(len(labels))), 'n_cond': n_cond}
+                pairs.append((nc[0], nc[1], rec, None, 'complete data'))
+            else:
+                if nc.shape != (2, N) or len(log['samples']) != N:
+                    ctx.fail(sigp + '|noise-ceiling-shape', done, 'shape %r for %d resamples (%d observed)' % (
+                        nc.shape, N, len(log['samples'])))
+                    return
+                for i, rec in enumerate(log['samples']):
+                    pairs.append((nc[0, i], nc[1, i], rec, None, 'resample %d (draws %s)' % (i, rec['draws'])))
+        else:
+            comps = 3 if routine == 'eval_dual_bootstrap' else 1
+            want_shape = (2, N, 1, 3) if comps == 3 else (2, N, 1)
+            if nc.shape != want_shape:
+                ctx.fail(sigp + '|noise-ceiling-shape', done, 'shape %r, expected %r' % (nc.shape, want_shape))
+                return
+            flat = nc.reshape(2, N, comps)
+            # slots that hold a value, in the order the routine fills them <-> observed sets_k_fold calls
+            slots = [(i, c) for i in range(N) for c in range(comps) if not np.isnan(flat[:, i, c]).all()]
+            if len(slots) != len(log['splits']):
+                ctx.exclude('resample does not allow the cross-validation (NaN stored) or NaN ceiling')
+                if len(slots) > len(log['splits']):
+                    ctx.fail(sigp + '|noise-ceiling-shape', done, '%d stored ceilings for %d observed splits' % (
+                        len(slots), len(log['splits'])))
+                    return
+                # a stored NaN for an observed split: keep the order by dropping nothing and judging NaN below
+                slots = [(i, c) for i in range(N) for c in range(comps)][:len(log['splits'])]
+            for (i, c), rec in zip(slots, log['splits']):
+                tl = rec['test_labels'] if setting['k_rdm'] > 1 else None
+                pairs.append((flat[0, i, c], flat[1, i, c], rec, tl, 'resample %d component %d' % (i, c)))
+        base = method
+        for lo, up, rec, tl, where in pairs:
+            want_lo, want_up, why = _resample_reference(base, rec, tl)
+            if want_lo is None:
+                ctx.exclude('resample: ' + str(why))
+                continue
+            ctx.dev('resample-lower/' + method, reldev(lo, want_lo))
+            if not close(lo, want_lo, TOL):
+                ctx.fail(sigp + '|stored-lower!=leave-one-group-out-of-the-resample', done,
+                         '%s: stored lower bound %.12g, reference %.12g (%s); resample group labels %s; '
+                         'data labels %s, rdm_descriptor=%r; data=%s' % (
+                             where, lo, want_lo, 'cross-validated, test groups %s' % tl if tl else
+                             'leave-one-group-out over the groups of the resample', rec['labels'], labels, desc,
+                             full.tolist()))
+                break
+            if want_up is not None and method in REFD:
+                ctx.dev('resample-upper/' + method, reldev(up, want_up))
+                if not close(up, want_up, TOL):
+                    ctx.fail(sigp + '|stored-upper!=score-of-pooled-rdm-of-the-resample', done,
+                             '%s: stored upper bound %.12g, average similarity to the pooled RDM of the resample '
+                             '%.12g; resample group labels %s; data=%s' % (where, up, want_up, rec['labels'],
+                                                                            full.tolist()))
+                    break
 
 
 def _case_pool(case, ctx):
